@@ -30,9 +30,10 @@ impl PhasedEval {
 
     pub fn for_phase(self, phase_value: i16) -> WhiteEval {
         // Switch to 64 bit calculations to avoid overflow
-        let phase_value = i64::from(phase_value);
+        // With promoted pieces the phase can exceed its nominal maximum; neither weight may go negative
+        let phase_value = i64::from(phase_value).min(PHASE_COUNT_MAX);
 
-        let midgame_phase_value = phase_value.min(PHASE_COUNT_MAX);
+        let midgame_phase_value = phase_value;
         let endgame_phase_value = PHASE_COUNT_MAX - phase_value;
 
         let midgame_eval = i64::from(self.midgame().0);
